@@ -130,6 +130,8 @@ type Exec struct {
 	curProps   []string
 	loadSeen   map[string]bool
 	sliceParent map[*Term]sliceParentInfo // []float64 slice expression -> (sliced value, low index)
+	equivRules  map[*Term][]equivRule
+	inEquivInst bool
 	pureFV     map[*Term]bool // function values known (by a resultpure contract) to be side-effect free
 	curClause        *Clause
 	nameCount        map[string]int
